@@ -50,8 +50,13 @@ impl OverlayFS {
         if path.is_empty() {
             return Ok(self.layers[0].clone());
         }
-        // the whiteout bookkeeping is not part of the overlay's namespace
+        // the whiteout bookkeeping lives in the write layer only; it is not subject to whiteouts
+        // itself (this also keeps an overlay usable as the write layer of another overlay)
         if path == "/.whiteout" || path.starts_with("/.whiteout/") {
+            let bookkeeping_path = self.write_layer().join(&path[1..])?;
+            if bookkeeping_path.exists()? {
+                return Ok(bookkeeping_path);
+            }
             return Err(VfsErrorKind::FileNotFound.into());
         }
         // a path is only visible if all its ancestors are visible directories: entries below a
